@@ -105,6 +105,7 @@ impl<K: Clone + Eq + Hash, V: Value> LeastRecentlyUsedCache<K, V> {
         // We are the only one who can dereference pointers right now.
         match state.keys.entry(key) {
             Entry::Occupied(entry) => {
+                let existing = *entry.get();
                 {
                     let node = unsafe { &mut *ptr };
                     let existing_ptr = entry.get();
@@ -119,6 +120,9 @@ impl<K: Clone + Eq + Hash, V: Value> LeastRecentlyUsedCache<K, V> {
                 unsafe {
                     Node::drop(ptr);
                 }
+                // Overwriting a key is a use of it:  make it the most recently used entry.
+                // SAFETY(rescrv):  We hold no references to nodes across this call.
+                state = unsafe { self.move_lru_to_front(state, existing) };
             }
             Entry::Vacant(entry) => {
                 let node = unsafe { &mut *ptr };
@@ -170,7 +174,7 @@ impl<K: Clone + Eq + Hash, V: Value> LeastRecentlyUsedCache<K, V> {
         };
         // SAFETY(rescrv):  We hold no references across this call.
         unsafe {
-            self.move_lru_to_front(state, ptr);
+            drop(self.move_lru_to_front(state, ptr));
         }
         Some(value)
     }
@@ -229,11 +233,11 @@ impl<K: Clone + Eq + Hash, V: Value> LeastRecentlyUsedCache<K, V> {
     }
 
     // The caller must make sure no references to linked nodes remain.
-    unsafe fn move_lru_to_front(
+    unsafe fn move_lru_to_front<'a>(
         &self,
-        mut state: MutexGuard<'_, State<K, V>>,
+        mut state: MutexGuard<'a, State<K, V>>,
         ptr: *mut Node<K, V>,
-    ) {
+    ) -> MutexGuard<'a, State<K, V>> {
         if ptr != state.head {
             // SAFETY(rescrv):  No references exist outside this function, and this is our first.
             let node = unsafe { &mut *ptr };
@@ -257,6 +261,7 @@ impl<K: Clone + Eq + Hash, V: Value> LeastRecentlyUsedCache<K, V> {
             head.prev = ptr;
             state.head = ptr;
         }
+        state
     }
 
     // The caller must make sure no references to linked nodes remain.
@@ -380,6 +385,18 @@ mod tests {
             Some("World".to_string()),
             lru.lookup(&"Goodbye".to_string())
         );
+    }
+
+    #[test]
+    fn overwrite_is_a_use() {
+        let lru = LeastRecentlyUsedCache::<u64, u64>::new(16);
+        lru.insert(1, 10);
+        lru.insert(2, 20);
+        lru.insert(1, 11);
+        lru.insert(3, 30);
+        assert_eq!(Some(11), lru.lookup(&1));
+        assert_eq!(None, lru.lookup(&2));
+        assert_eq!(Some(30), lru.lookup(&3));
     }
 
     fn guacamole_thread(
